@@ -15,14 +15,17 @@ def run_deck(job):
            'file': None, 'out': res['out'] if job.get('keep_out') else None,
            'opts': list(job.get('opts', ()))}
     if res['result'] == 'ok':
+        import hashlib
+        rec['out_hash'] = hashlib.sha1(res['out'].encode()).hexdigest()[:12]
         t4 = t4file.parse(res['out'])
         rec['file'] = t4file.project(t4, deck['pts'], with_witness=True)
+        rec['file']['cinfo'] = adeck.composition_info(t4, deck)
         if job.get('keep_parsed'):
             rec['t4'] = t4
     return rec
 
 
-EMPTY_FILE = {'surfs': [], 'trs': [], 'vols': [], 'endg': True, 'njunk': 0, 'rows': [], 'wit': [],
+EMPTY_FILE = {'cinfo': [], 'surfs': [], 'trs': [], 'vols': [], 'endg': True, 'njunk': 0, 'rows': [], 'wit': [],
               'compo': {'present': False, 'declared': 0, 'names': [], 'ncounts_ok': True,
                         'finite': True, 'njunk': 0},
               'geomcomp': {'present': False, 'rows': []},
